@@ -77,7 +77,7 @@ type Obs struct {
 	HSet   bool
 }
 
-const syncUser = "\x00verif-sync\x00"
+const syncUser = "\x00s"
 
 func buildReq(code, id byte, attrs []byte, secret []byte) []byte {
 	p := make([]byte, 20+len(attrs))
@@ -419,45 +419,39 @@ func emit(c Case, steps []step, st *stats) vh.Case {
 	tags := map[string]bool{"family:" + c.Family: true}
 	for i, s := range steps {
 		dg := s.D.B
-		var tbl []string
 		key, complete := reqKey(dg, c.Secret)
 		authentic := false
+		rd := "None"
 		if complete {
 			d := md5.Sum(key)
 			authentic = bytes.Equal(d[:], dg[4:20])
-			tbl = append(tbl, vh.Pair(vh.Bytes(key), vh.Bytes(d[:])))
+			rd = fmt.Sprintf("(Some (%d, %s))", binary.BigEndian.Uint16(dg[2:4]), vh.Bytes(d[:]))
 		}
+		var rl []string
 		for _, r := range s.O.Resps {
+			var d [16]byte
 			if len(r) >= 20 && len(dg) >= 20 {
-				k := respKey(dg, r, c.Secret)
-				d := md5.Sum(k)
-				tbl = append(tbl, vh.Pair(vh.Bytes(k), vh.Bytes(d[:])))
+				d = md5.Sum(respKey(dg, r, c.Secret))
 			}
+			rl = append(rl, vh.Pair(vh.Bytes(r), vh.Bytes(d[:])))
+		}
+		var cl []string
+		for _, cc := range s.O.Calls {
+			cl = append(cl, vh.Pair(vh.N(uint64(cc.Kind)), reqTerm(cc.Req)))
 		}
 		useMd5 := c.Md5 && i < 6
-		op := fmt.Sprintf("mkop %s %s %d %s %s %s %s", vh.Bytes(dg), vh.Bool(s.D.Ok), s.D.Cause, vh.Bytes(s.D.Msg), vh.Bool(authentic), vh.List(tbl), vh.Bool(useMd5))
-		var o string
+		tr = append(tr, fmt.Sprintf("st %s %s %d %s %s %s %s %s %s %s", vh.Bytes(dg), vh.Bool(s.D.Ok), s.D.Cause, vh.Bytes(s.D.Msg),
+			vh.Bool(authentic), rd, vh.List(rl), vh.List(cl), vh.Bool(s.O.Panic), vh.Bool(useMd5)))
 		if s.O.Panic {
-			o = "OPanic"
 			st.panics++
 			tags["obs:panic"] = true
-		} else {
-			var cl, rl []string
-			for _, cc := range s.O.Calls {
-				cl = append(cl, vh.Pair(vh.N(uint64(cc.Kind)), reqTerm(cc.Req)))
-			}
-			for _, r := range s.O.Resps {
-				rl = append(rl, vh.Bytes(r))
-			}
-			o = "OObs " + vh.List(cl) + " " + vh.List(rl)
-			if !s.Syn {
-				if len(rl) > 0 {
-					st.handled++
-					tags["obs:handled"] = true
-				} else {
-					st.dropped++
-					tags["obs:dropped"] = true
-				}
+		} else if !s.Syn {
+			if len(rl) > 0 {
+				st.handled++
+				tags["obs:handled"] = true
+			} else {
+				st.dropped++
+				tags["obs:dropped"] = true
 			}
 		}
 		if !s.Syn {
@@ -469,7 +463,6 @@ func emit(c Case, steps []step, st *stats) vh.Case {
 				tags["dg:"+strings.SplitN(s.D.Tag, "@", 2)[0]] = true
 			}
 		}
-		tr = append(tr, vh.Pair(op, o))
 	}
 	var tl []string
 	for t := range tags {
@@ -530,12 +523,12 @@ func genAnswer(r *vh.Rng, d *Dg) {
 	if r.Chance(1, 2) {
 		d.Cause = []uint32{201, 402, 404, 503, 504, 506, 0xffffffff, 1}[r.Intn(8)]
 	}
-	switch r.Intn(8) {
-	case 0, 1, 2:
-		d.Msg = []byte("Session not found")
-	case 3:
-		d.Msg = r.Bytes(1 + r.Intn(40))
-	case 4:
+	switch r.Intn(60) {
+	case 0, 1, 2, 3, 4, 5, 6, 7, 8, 9:
+		d.Msg = []byte("not found")
+	case 10, 11, 12:
+		d.Msg = r.Bytes(1 + r.Intn(20))
+	case 13:
 		d.Msg = bytes.Repeat([]byte{'m'}, []int{253, 254, 255, 300}[r.Intn(4)]) // Reply-Message length octet wraps
 	}
 }
@@ -806,7 +799,7 @@ func main() {
 	}
 	cfg := vh.ParseFlags()
 	if cfg.Shard == 250 {
-		cfg.Shard = 40 // a case is a trace of up to ~100 steps
+		cfg.Shard = 20 // a case is a trace of up to ~100 steps
 	}
 	emitStream := func(name string, cs []Case, extra map[string]interface{}) {
 		var st stats
